@@ -454,6 +454,18 @@ func sliceAcross(v ssa.Value) map[ssa.Value]bool {
 					work = append(work, a)
 				}
 			}
+			// the result of a private helper depends on what the helper returns
+			if c, ok := y.(*ssa.Call); ok {
+				if h := an.StaticCallee(c); h != nil && an.InModule(h) && h.Blocks != nil && c.Parent() != nil && an.FuncPkgPath(h) == an.FuncPkgPath(c.Parent()) {
+					for _, ret := range an.Returns(h) {
+						for _, res := range ret.Results {
+							if !out[res] {
+								work = append(work, res)
+							}
+						}
+					}
+				}
+			}
 		}
 	}
 	return out
@@ -494,4 +506,26 @@ func siteIn(f *ssa.Function, in ssa.Instruction) ssa.Instruction {
 		return nil
 	}
 	return cur
+}
+
+// funcAnywhereQuiet is funcAnywhere without recording an obligation when the
+// function is missing.
+func funcAnywhereQuiet(r *an.Run, rel, spec string) *ssa.Function {
+	if f := r.P.Func(rel, spec); f != nil {
+		return f
+	}
+	base := spec
+	if i := strings.LastIndex(spec, "."); i >= 0 {
+		base = spec[i+1:]
+	}
+	var found []*ssa.Function
+	for _, g := range r.P.PkgFuncs(rel) {
+		if g.Name() == base && g.Parent() == nil {
+			found = append(found, g)
+		}
+	}
+	if len(found) == 1 {
+		return found[0]
+	}
+	return nil
 }
